@@ -4,7 +4,10 @@ from __future__ import annotations
 import simplify
 
 ID = "C02"
-THEOREMS = ["select_identity_sem", "makeSelect_sem", "makeArgsUnique_counter", "freshNames_mem", "lambdaIsIdentity_sound"]
+THEOREMS = ["select_identity_sem", "makeSelect_sem", "makeArgsUnique_counter", "freshNames_mem", "lambdaIsIdentity_sound",
+            "rule_select_select", "rule_selectMany_select", "rule_where_select", "rule_where_where", "rule_select_selectMany",
+            "rule_where_selectMany", "rule_selectMany_selectMany", "rule_first_attr", "rule_first_sub", "rule_tuple_index", "rule_list_index",
+            "denLz_coincide", "sel_sel", "whr_whr", "whr_sel", "many_sel", "sel_many", "whr_many", "many_many", "first_sel"]
 RULE = (
     "seeded sort-directed closed queries over Select/Where/SelectMany/First/Count/len/Sum/Max/Min in function form (half "
     "of them converted from method form by the shipped pass), nested lambdas, called lambdas with positional and keyword "
@@ -12,7 +15,18 @@ RULE = (
     "calls with arguments; binder naming schemes all-distinct / all-identical / inner re-use of a live outer name; each on "
     "three datasets (Lean ev) and a sample on two more in CPython; non-trivial = at least 8 AST nodes; distinct = source text"
 )
-EXPLANATION = ("Theorems so far (first layer): make_Select's identity elimination preserves the value under deferred execution (select_identity_sem, makeSelect_sem); the fresh-name supply (makeArgsUnique_counter, freshNames_mem). The preservation theorem for the whole simplifier is in progress (DESIGN). Correspondence: simplify_chained_calls vs the compiled Lean simp on every generated query, compared modulo alpha-equivalence of lambda binders. Oracles on the implementation: Lean ev (deferred-execution semantics) of original vs simplified on three datasets; CPython evaluation of both on two datasets for a sample; unbound / wrongly bound names show up as evaluation differences.")
+EXPLANATION = (
+    "Theorems: (1) every fusion rule the simplifier applies is value preserving under deferred execution, for every source, "
+    "every pair of lambdas, every world and environment: rule_select_select, rule_selectMany_select, rule_where_select, "
+    "rule_where_where, rule_select_selectMany, rule_where_selectMany, rule_selectMany_selectMany (built on the value-level "
+    "laws sel_sel, whr_whr, whr_sel, many_sel, sel_many, whr_many, many_many), rule_first_attr / rule_first_sub (first_sel), "
+    "rule_tuple_index / rule_list_index, make_Select's identity elimination (select_identity_sem, makeSelect_sem); (2) "
+    "denLz_coincide: the value depends only on the free names (basis of the freshness side conditions); (3) the fresh-name "
+    "supply (makeArgsUnique_counter, freshNames_mem). PARTIAL: the theorem for the whole visitor (substitution stack, "
+    "re-visiting) is not proved; that composition is covered per run by: correspondence of simplify_chained_calls vs the "
+    "compiled Lean simp on every generated query (modulo alpha), Lean ev of original vs simplified on three datasets, "
+    "CPython evaluation of both on two datasets for a sample."
+)
 
 
 def run(ctx):
